@@ -428,7 +428,13 @@ func (h *RequestHeader) AppendBytes(dst []byte) []byte {
 	if n > 0 {
 		dst = append(dst, bytestr.StrCookie...)
 		dst = append(dst, bytestr.StrColonSpace...)
+		cookieStart := len(dst)
 		dst = appendRequestCookieBytes(dst, h.cookies)
+		// same newline filtering as appendHeaderLine: cookie names and values
+		// must not be able to start a new header line
+		for i := cookieStart; i < len(dst); i++ {
+			dst[i] = bytesconv.NewlineToSpaceTable[dst[i]]
+		}
 		dst = append(dst, bytestr.StrCRLF...)
 	}
 
